@@ -315,8 +315,8 @@ void misc_string_ops(Enumerator &E) {
                     size_t ts = b.target(o);
                     E.cell(nm("istream", std::string(wide ? "wide" : "narrow") + (corrupt ? ",corrupted" : ""), std::string("token=") + L(LC16[ti], 16) + ",dst=" + L(LC16[di], 16)), b, ts);
                 }
-        for (unsigned var = 0; var < 16; var++) {
-            Builder b; uint32_t x = b.str(LC16[ti]);
+        for (unsigned var = 0; var < 24; var++) {
+            Builder b; uint32_t x = b.str(ti == 4 ? 70 : LC16[ti]);
             Op o; o.kind = S_SINKS; o.a = x; o.b = var; o.c = 77;
             size_t ts = b.target(o);
             E.cell(nm("sinks", "var" + std::to_string(var), std::string("obj=") + L(LC16[ti], 16)), b, ts);
